@@ -8,8 +8,7 @@ Transcribed on the typed tree, method by method, with the exceptions Python rais
 of names it was asked for, which is part of the state (`St.asked`).
 
 The table-lineage store (`TableLineageStorage`) is one mutable object handed down through the whole recursion:
-`_sub_query_table` is keyed by alias and never cleared, `_with_table` is never filled (any non-empty WITH clause
-raises `TypeError` before `add_with_table` is reached).
+`_sub_query_table` and `_with_table` are keyed by alias / WITH name and never cleared.
 -/
 namespace LN
 open Ast AN
@@ -36,6 +35,7 @@ def StdTable.source (t : StdTable) : String :=
 /-- `SelectTableLineage` (`table_lineage.py:30-58`): the name list keeps duplicates, the three maps are keyed by name
 resp. index (a later entry with the same key replaces the value) -/
 structure Lineage where
+  data : List (SCol × List SrcCol)
   names : List String
   stdOf : List (String × SCol)
   srcOf : List (String × List SrcCol)
@@ -43,24 +43,24 @@ structure Lineage where
   tables : List StdTable
   deriving Inhabited
 
-def Lineage.empty : Lineage := ⟨[], [], [], [], []⟩
+def Lineage.empty : Lineage := ⟨[], [], [], [], [], []⟩
 
 /-- the constructor's loop -/
 def mkLineage : List (SCol × List SrcCol) → Lineage → Lineage
   | [], l => l
   | (c, srcs) :: r, l =>
-    mkLineage r { names := l.names ++ [c.name]
+    mkLineage r { data := l.data ++ [(c, srcs)]
+                  names := l.names ++ [c.name]
                   stdOf := dictSet l.stdOf c.name c
                   srcOf := dictSet l.srcOf c.name srcs
                   idxSrc := dictSet l.idxSrc c.idx srcs
                   tables := srcs.foldl (fun ts s => if ts.contains (s.schema, s.table) then ts else ts ++ [(s.schema, s.table)]) l.tables }
 
-/-- `SelectTableLineage.by_create_table_statement` (`:49-58`): 0-based positions, `''` for a missing schema -/
+/-- `SelectTableLineage.by_create_table_statement` (`:49-58`): 0-based positions -/
 def byCreateTable (c : CreateTable) : Lineage :=
-  let schema := c.table.schema.getD ""
   let rec go : List DefCol → Nat → List (SCol × List SrcCol)
     | [], _ => []
-    | d :: r, i => (⟨Int.ofNat i, d.name⟩, [⟨some schema, c.table.name, some d.name⟩]) :: go r (i + 1)
+    | d :: r, i => (⟨Int.ofNat i, d.name⟩, [⟨c.table.schema, c.table.name, some d.name⟩]) :: go r (i + 1)
   mkLineage (go c.columns 0) Lineage.empty
 
 /-- `has_column` -/
@@ -75,13 +75,13 @@ def Lineage.srcByName (l : Lineage) (n : String) : Except Err (List SrcCol) :=
 /-- `get_source_column_list_by_idx` -/
 def Lineage.srcByIdx (l : Lineage) (i : Int) : Except Err (List SrcCol) :=
   match dictGet? l.idxSrc i with | some s => .ok s | none => .error (.py .KeyError)
-/-- `all_columns` (`.get`: a missing key would give `None`; it cannot be missing) -/
-def Lineage.allColumns (l : Lineage) : List (Option SCol × Option (List SrcCol)) :=
-  l.names.map fun n => (dictGet? l.stdOf n, dictGet? l.srcOf n)
+/-- `all_columns`: the list the object was built from -/
+def Lineage.allColumns (l : Lineage) : List (SCol × List SrcCol) := l.data
 
 /-- the mutable state: the sub-query store and the getter's log -/
 structure St where
   subq : List (String × Lineage) := []
+  withT : List (String × Lineage) := []
   asked : List String := []
   deriving Inhabited
 
@@ -100,9 +100,11 @@ def getStatement (cat : Cat) (name : String) : M CreateTable := fun st =>
 def getTableLineage (cat : Cat) (t : StdTable) : M Lineage := fun st =>
   match dictGet? st.subq t.2 with
   | some l => .ok (l, st)
-  | none => match getStatement cat (StdTable.source t) st with
-    | .ok (c, st') => .ok (byCreateTable c, st')
-    | .error e => .error e
+  | none => match dictGet? st.withT t.2 with
+    | some l => .ok (l, st)
+    | none => match getStatement cat (StdTable.source t) st with
+      | .ok (c, st') => .ok (byCreateTable c, st')
+      | .error e => .error e
 
 /-! ## the two current-level dictionaries -/
 
@@ -131,12 +133,6 @@ def subQueries : List FromTable → List (String × Query) → List (String × Q
   | _ :: r, acc => subQueries r acc
 
 /-! ## `TableLineageAnalyzer` -/
-
-/-- `_analyze_with_clauses` (`:75-79`): `for table_name, with_select_statement in with_clause.tables` unpacks a node -/
-def analyzeWithClauses : Option (List WithTable) → Except Err Unit
-  | none => .error (.py .AttributeError)
-  | some [] => .ok ()
-  | some (_ :: _) => .error (.py .TypeError)
 
 def Query.withs : Query → Option (List WithTable)
   | .single (.mk ws _ _ _ _ _ _ _ _ _ _ _ _ _) => ws
@@ -186,10 +182,10 @@ def currentLevelSingle (cat : Cat) (tn : List (String × StdTable)) : List (Expr
       | some a, e => do pure ([(⟨Int.ofNat idx, a⟩, ← nodeColsV e.toVal)], st)
       | none, .wildcard (some t) =>
         (match dictGet? tn t with
-         | none => .error (.py .KeyError)
+         | none => .error .analyzer                 -- `get_standard_table`: unknown qualifier
          | some std => expandTable cat std idx st)
       | none, .wildcard none => expandTables cat (tn.map (·.2)) idx st
-      | none, .column t n => pure ([(⟨Int.ofNat idx, n⟩, [⟨t, some n, none⟩])], st)
+      | none, .column t n => do pure ([(⟨Int.ofNat idx, n⟩, ← nodeColsV (Expr.column t n).toVal)], st)
       | none, e => do
         let name ← PR.prE .DEFAULT e
         pure ([(⟨Int.ofNat idx, name⟩, ← nodeColsV e.toVal)], st) : Except Err (List (SCol × List QCol) × St))
@@ -207,12 +203,14 @@ def currentLevel (cat : Cat) (tn : List (String × StdTable)) (q : Query) : M (L
       let r ← mergeByPos acc.1 m
       pure (r, st)) (first, st)
 
-/-- the anonymous-aggregate branch of `_analyze_quote_column` (`:101-110`): `source_table.name` does not exist -/
+/-- the anonymous-aggregate branch of `_analyze_quote_column` (`:103-112`): one source without column name per upstream
+table of every table in scope -/
 def anonSources (cat : Cat) : List StdTable → M (List SrcCol)
   | [], st => .ok ([], st)
   | t :: r, st => do
     let (lin, st) ← getTableLineage cat t st
-    if lin.tables.isEmpty then anonSources cat r st else .error (.py .AttributeError)
+    let (b, st) ← anonSources cat r st
+    pure (lin.tables.map (fun s => (⟨s.1, s.2, none⟩ : SrcCol)) ++ b, st)
 
 /-- the unqualified branch (`:112-130`): exactly one upstream table must have the column (`*` matches every table) -/
 def unqualifiedSources (cat : Cat) (name : String) : List StdTable → Bool → List SrcCol → M (List SrcCol)
@@ -220,7 +218,7 @@ def unqualifiedSources (cat : Cat) (name : String) : List StdTable → Bool → 
   | t :: r, matched, acc, st => do
     let (lin, st) ← getTableLineage cat t st
     if !lin.hasColumn name then unqualifiedSources cat name r matched acc st
-    else if matched then .error .analyzer
+    else if matched && name != "*" then .error .analyzer
     else do
       let s ← lin.srcByName name
       unqualifiedSources cat name r true (acc ++ s) st
@@ -230,12 +228,12 @@ def analyzeQuoteColumn (cat : Cat) (tn : List (String × StdTable)) (c : QCol) :
   match c.table, c.name with
   | some t, n =>
     (match dictGet? tn t with
-     | none => .error (.py .KeyError)
+     | none => .error .analyzer                     -- `get_standard_table`: unknown qualifier
      | some std => do
        let (lin, st) ← getTableLineage cat std st
        match n with
-       | some n => do pure (← lin.srcByName n, st)
-       | none => .error (.py .KeyError))
+       | some n => if !lin.hasColumn n then .error .analyzer else do pure (← lin.srcByName n, st)
+       | none => .error .analyzer)
   | none, none => anonSources cat (tn.map (·.2)) st
   | none, some n => unqualifiedSources cat n (tn.map (·.2)) false [] st
 
@@ -273,7 +271,9 @@ mutual
 def selectLineage (cat : Cat) : Nat → Query → M Lineage
   | 0, _, _ => .error .fuel
   | f + 1, q, st => do
-    analyzeWithClauses (Query.withs q)
+    let st ← (match Query.withs q with
+      | none => .error (.py .AttributeError)             -- `None.tables`
+      | some ws => withLineages cat f ws st)             -- `_analyze_with_clauses`
     let fts := levelFromTables q
     let st ← subQueryLineages cat f (subQueries fts []) st        -- `_analyze_sub_query`
     let tn ← tableNames fts []
@@ -281,6 +281,13 @@ def selectLineage (cat : Cat) : Nat → Query → M Lineage
     let (cur, st) ← currentLevel cat tn q st
     let (data, st) ← sourcesLoop cat tn lv cur st
     pure (mkLineage data Lineage.empty, st)
+/-- `_analyze_with_clauses` (`:75-79`) -/
+def withLineages (cat : Cat) : Nat → List WithTable → St → Except Err St
+  | 0, _, _ => .error .fuel
+  | _, [], st => .ok st
+  | f + 1, .mk n q :: r, st => do
+    let (lin, st) ← selectLineage cat f q st
+    withLineages cat f r { st with withT := dictSet st.withT n lin }
 /-- `_analyze_sub_query` (`:81-87`) -/
 def subQueryLineages (cat : Cat) : Nat → List (String × Query) → St → Except Err St
   | 0, _, _ => .error .fuel
@@ -293,12 +300,18 @@ end
 mutual
 def sizeQ : Query → Nat
   | .single s => sizeS s + 1
-  | .union _ s us => sizeS s + sizeU us + 1
+  | .union ws s us => sizeOW ws + sizeS s + sizeU us + 1
+def sizeOW : Option (List WithTable) → Nat
+  | none => 0
+  | some l => sizeW l
+def sizeW : List WithTable → Nat
+  | [] => 0
+  | .mk _ q :: r => sizeQ q + sizeW r + 1
 def sizeU : List (String × Select) → Nat
   | [] => 0
   | (_, s) :: r => sizeS s + sizeU r + 1
 def sizeS : Select → Nat
-  | .mk _ _ _ fr _ js _ _ _ _ _ _ _ _ => sizeOF fr + sizeJ js + 1
+  | .mk ws _ _ fr _ js _ _ _ _ _ _ _ _ => sizeOW ws + sizeOF fr + sizeJ js + 1
 def sizeOF : Option (List FromTable) → Nat
   | none => 0
   | some l => sizeF l
@@ -327,7 +340,7 @@ def insertLineage (cat : Cat) (h : InsertHead) (q : Query) : M (List (SrcCol × 
       let (c, st) ← getStatement cat (PR.tableNameSrc h.table.schema h.table.name) st
       pure (c.columns.map fun d => (⟨h.table.schema, h.table.name, some d.name⟩ : SrcCol), st) : Except Err (List SrcCol × St))
   let q' := setWiths h.withs q
-  let (lin, st) ← selectLineage cat (fuelFor q') q' { st with subq := [] }
+  let (lin, st) ← selectLineage cat (fuelFor q') q' { st with subq := [], withT := [] }
   if down.length != lin.allColumns.length then .error .analyzer
   else do
     let data ← (down.zipIdx 1).mapM fun (d, i) => do pure (d, ← lin.srcByIdx (Int.ofNat i))
